@@ -36,6 +36,7 @@ import (
 	"context"
 	"errors"
 	"fmt"
+	"math"
 	"strconv"
 
 	"github.com/cloudwego/dynamicgo/internal/json"
@@ -201,6 +202,10 @@ func appendInt(p *thrift.BinaryProtocol, typ thrift.Type, out *[]byte) error {
 		i, err := p.ReadDouble()
 		if err != nil {
 			return err
+		}
+		// NOTICE: NaN and Inf can't be represented (the encoder writes nothing for them)
+		if math.IsNaN(i) || math.IsInf(i, 0) {
+			return meta.NewError(meta.ErrConvert, fmt.Sprintf("unsupported non-finite double value %v", i), nil)
 		}
 		*out = json.EncodeFloat64(*out, float64(i))
 	case thrift.STRING:
